@@ -228,6 +228,8 @@ namespace {
           amt = amt_str.str();
         }
         else if (count == 2 && index == 2 &&
+                 post->must_balance() &&
+                 (*xact.posts.begin())->must_balance() &&
                  post_has_simple_amount(*post) &&
                  post_has_simple_amount(*(*xact.posts.begin())) &&
                  ((*xact.posts.begin())->amount.commodity() ==
